@@ -18,7 +18,7 @@ import sys
 import time
 
 VERIF = os.path.dirname(os.path.dirname(os.path.abspath(__file__)))
-BUILD = os.path.join(VERIF, "build")
+BUILD = os.environ.get("RKSIM_BUILD", os.path.join(VERIF, "build"))
 REPO = os.environ.get("RKSIM_REPO", "/repo")
 NCPU = int(os.environ.get("RKSIM_WORKERS", "16"))
 
